@@ -37,7 +37,7 @@ func runC10(r *Run) {
 
 	// ---- C10.2b
 	if fn := w.Fn("tmi.Kernel.addProposedHeader"); fn != nil {
-		a := w.A(fn)
+		a := w.AU(fn)
 		n := 0
 		a.Instrs(func(in ssa.Instruction) {
 			st, ok := in.(*ssa.Store)
@@ -64,7 +64,7 @@ func runC10(r *Run) {
 		}
 	}
 	if fn := w.Fn("tmi.Kernel.handleReplayedHeader"); fn != nil {
-		a := w.A(fn)
+		a := w.AU(fn)
 		saves := a.CallsTo("tmstore.RoundStore.SaveRoundReplayedHeader")
 		n := 0
 		a.Instrs(func(in ssa.Instruction) {
@@ -87,7 +87,7 @@ func runC10(r *Run) {
 
 	// ---- C10.3
 	if fn := w.Fn("tmi.NewKernel"); fn != nil {
-		a := w.A(fn)
+		a := w.AU(fn)
 		srcs := a.CallsTo("tmstore.MirrorStore.NetworkHeightRound")
 		lrs := a.CallsTo("tmstore.RoundStore.LoadRoundState")
 		r.Check(len(srcs) == 1, "C10.3", "tmi.NewKernel(position)", w.Pos(fn.Pos()), "the kernel's initial position is read from the mirror store")
@@ -101,7 +101,7 @@ func runC10(r *Run) {
 		r.Check(okArgs, "C10.3", "tmi.NewKernel(prev-commit-proof)", w.Pos(fn.Pos()), "the previous commit proof of the voting view is rebuilt from the round state stored for the committing height/round")
 	}
 	if fn := w.Fn("tmi.Kernel.loadInitialView"); fn != nil {
-		a := w.A(fn)
+		a := w.AU(fn)
 		lrs := a.CallsTo("tmstore.RoundStore.LoadRoundState")
 		ok := len(lrs) == 1 && a.sh.Of(CallArg(lrs[0], 2)).String() == "p2" && a.sh.Of(CallArg(lrs[0], 3)).String() == "p3"
 		r.Check(ok, "C10.3", "tmi.Kernel.loadInitialView(round-state)", w.Pos(fn.Pos()), "a start-up view is loaded from the round store for its own height and round")
@@ -116,7 +116,7 @@ func runC10(r *Run) {
 		r.Check(ok2, "C10.3", "tmi.Kernel.loadInitialView(votes)", w.Pos(fn.Pos()), "stored prevotes and precommits are rebuilt (and so re-verified) as proofs of their own kind")
 	}
 	if fn := w.Fn("tmstate.StateMachine.sendInitialActionSet"); fn != nil {
-		a := w.A(fn)
+		a := w.AU(fn)
 		src := a.CallsTo("tmstore.StateMachineStore.StateMachineHeightRound")
 		r.Check(len(src) == 1, "C10.3", "tmstate.StateMachine.sendInitialActionSet(position)", w.Pos(fn.Pos()), "the state machine's position is read from its store")
 		// round entrance H is h or h+1 with h+1 only under a stored finalization
@@ -177,7 +177,7 @@ func runC10(r *Run) {
 
 	// ---- C10.4
 	if fn := w.Fn("tmengine.Engine.maybeInitializeChain"); fn != nil {
-		a := w.A(fn)
+		a := w.AU(fn)
 		n := 0
 		for _, s := range a.Sends() {
 			if TypeName(s.Val.Type()) != "tmdriver.InitChainRequest" {
@@ -199,7 +199,7 @@ func runC10(r *Run) {
 
 	// ---- C10.5
 	if fn := w.Fn("tmi.mapToSparseSignatureCollection"); fn != nil {
-		a := w.A(fn)
+		a := w.AU(fn)
 		n := 0
 		a.Instrs(func(in ssa.Instruction) {
 			up, ok := in.(*ssa.MapUpdate)
@@ -220,7 +220,7 @@ func runC10(r *Run) {
 		if fn == nil {
 			continue
 		}
-		a := w.A(fn)
+		a := w.AU(fn)
 		// future votes are written only when signatures increased
 		var inc []Edge
 		for _, b := range fn.Blocks {
@@ -258,7 +258,7 @@ func runC11(r *Run) {
 
 	// ---- C11.1b
 	if fn := w.Fn("tmi.Kernel.addProposedHeader"); fn != nil {
-		a := w.A(fn)
+		a := w.AU(fn)
 		n := 0
 		a.Instrs(func(in ssa.Instruction) {
 			st, ok := in.(*ssa.Store)
@@ -290,7 +290,7 @@ func runC11(r *Run) {
 			r.Fail("C11.2", v.fn, "", "function not found")
 			continue
 		}
-		a := w.A(fn)
+		a := w.AU(fn)
 		inc, clone, other := false, false, false
 		a.Instrs(func(in ssa.Instruction) {
 			st, ok := in.(*ssa.Store)
@@ -329,7 +329,7 @@ func runC11(r *Run) {
 			continue
 		}
 		fnn := FuncName(fw.Fn)
-		if fnn == "tmi.Kernel.copySnapshotView" {
+		if st, ok := fw.Instr.(*ssa.Store); ok && writesCallerOwnedView(w, fw.Fn, st.Addr) {
 			continue // snapshot copy for a caller
 		}
 		r.Check(allowedVersion[fnn], "C11.2", "write(Version)@"+fnn, w.InstrPos(fw.Instr), "view versions are advanced only by the mark-updated functions")
@@ -380,7 +380,7 @@ func runC11(r *Run) {
 	}
 	// gossip output values are clones of the manager's copies
 	if fn := w.Fn("tmi.gossipViewManager.Output"); fn != nil {
-		a := w.A(fn)
+		a := w.AU(fn)
 		n := 0
 		a.Instrs(func(in ssa.Instruction) {
 			st, ok := in.(*ssa.Store)
@@ -400,7 +400,7 @@ func runC11(r *Run) {
 
 	// ---- C11.4
 	if fn := w.Fn("tmi.Kernel.mainLoop"); fn != nil {
-		a := w.A(fn)
+		a := w.AU(fn)
 		n := 0
 		a.Instrs(func(in ssa.Instruction) {
 			sel, ok := in.(*ssa.Select)
@@ -432,7 +432,7 @@ func runC11(r *Run) {
 	// a round entrance starts the state machine's output afresh: the queued jump-ahead (a snapshot
 	// taken for the previous entrance) is dropped and the sent-version is reset on every path
 	if fn := w.Fn("tmi.stateMachineViewManager.Reset"); fn != nil {
-		a := w.A(fn)
+		a := w.AU(fn)
 		want := map[string]string{"tmi.stateMachineViewManager.jumpAhead": "nil", "tmi.stateMachineViewManager.lastSentVersion": "0", "tmi.stateMachineViewManager.roundEntrance": "p1"}
 		for f, val := range want {
 			ok := false
@@ -463,7 +463,7 @@ func runC11(r *Run) {
 		r.Fail("C11.4", "tmi.stateMachineViewManager.Reset", "", "function not found")
 	}
 	if fn := w.Fn("tmi.stateMachineViewManager.Output"); fn != nil {
-		a := w.A(fn)
+		a := w.AU(fn)
 		n := 0
 		a.Instrs(func(in ssa.Instruction) {
 			st, ok := in.(*ssa.Store)
@@ -495,7 +495,7 @@ func runC11(r *Run) {
 
 	// ---- C11.5
 	if fn := w.Fn("tmi.kState.AdvanceVotingRound"); fn != nil {
-		a := w.A(fn)
+		a := w.AU(fn)
 		var store ssa.Instruction
 		a.Instrs(func(in ssa.Instruction) {
 			if st, ok := in.(*ssa.Store); ok && strings.HasSuffix(a.sh.Of(st.Addr).String(), "GossipViewManager.NilVotedRound") {
@@ -511,7 +511,7 @@ func runC11(r *Run) {
 		r.Check(ok, "C11.5", "tmi.kState.AdvanceVotingRound", w.Pos(fn.Pos()), "the nil-voted round is a clone of the voting view taken before the voting/next-round swap")
 	}
 	if fn := w.Fn("tmi.kState.JumpVotingRound"); fn != nil {
-		a := w.A(fn)
+		a := w.AU(fn)
 		js := a.CallsTo("tmi.stateMachineViewManager.JumpToRound")
 		ok := len(js) == 1
 		if ok {
@@ -523,7 +523,7 @@ func runC11(r *Run) {
 		r.Check(ok, "C11.5", "tmi.kState.JumpVotingRound", w.Pos(fn.Pos()), "the state machine on the round being left is handed the new voting view as a jump-ahead")
 	}
 	if fn := w.Fn("tmi.Kernel.addPrecommit"); fn != nil {
-		a := w.A(fn)
+		a := w.AU(fn)
 		marks := a.CallsTo("tmi.kState.MarkViewUpdated")
 		shifts := a.CallsTo("tmi.Kernel.checkVotingPrecommitViewShift", "tmi.Kernel.checkNextRoundPrecommitViewShift")
 		ok := len(marks) >= 1 && len(shifts) >= 1
@@ -636,7 +636,7 @@ func checkHandleViewUpdateGuards(r *Run, rule string) {
 		r.Fail(rule, "handleViewUpdate", "", "function not found")
 		return
 	}
-	a := w.A(fn)
+	a := w.AU(fn)
 	n := 0
 	for _, c := range a.CallsTo("tmstate.StateMachine.handleProposalViewUpdate", "tmstate.StateMachine.handlePrevoteViewUpdate", "tmstate.StateMachine.handlePrecommitViewUpdate", "tmstate.StateMachine.handleCommitWaitViewUpdate") {
 		n++
